@@ -1,12 +1,19 @@
 """C09 - template lookup never escapes its configured directories.
 
+regen : group PathCfg (tools/regen_pathcfg.py): control structure of Template.__init__ (the URI check is an
+        unconditional top-level statement before anything is compiled or read) and of TemplateLookup
+        (has_template = get_template succeeding; what get_template/_check/_load return) -> named obligations.
 corr  : Lean path model (normpath/join/dirname/uriToSrc/templateCheck/modulePath/adjustUri) vs the
-        real posixpath and the real TemplateLookup.get_template / Template.__init__ / adjust_uri
-        (instrumented from here: the path handed to os.path.isfile, the module path handed to
-        _compile_from_file) on exhaustively enumerated and random URIs.
+        real posixpath and the real TemplateLookup.get_template / Template.__init__ (module_directory and
+        module_filename) / adjust_uri (instrumented from here: the path handed to os.path.isfile, the module
+        path handed to _compile_from_file) on exhaustively enumerated and random URIs; the lookup state machine
+        (Path/History.lean) vs a real TemplateLookup over random histories of get_template / has_template calls
+        and file creations / deletions inside and outside the roots.
 oracle: a real directory tree with secrets beside/above the roots; an audit hook records every file
         opened and the tree is compared before/after: nothing outside the roots is read, nothing
-        outside module_directory is created, every returned template's realpath is inside a root.
+        outside module_directory is created, every returned template's realpath is inside a root,
+        has_template agrees with get_template; lookups with module_directory, modulename_callable and a
+        module directory shared with a foreign lookup.
 """
 from __future__ import annotations
 
@@ -20,11 +27,12 @@ import tempfile
 
 from harness.common import enc, dec, shrink_str
 
+DIRS_FOR_RULE = ["/srv/t", "/", "rel/t", ".", "../up", "//x", "/srv/t/", "/srv/./t/../t", "///y//z/"]
 RULE = ("URIs = segments over {a, sub, .., ., '', ..a, a.., ...} joined by separators {/, //, \\} with "
         "leading {'', /, //, ///, \\, /\\} and trailing {'', /, \\}: exhaustive up to k segments (quick k=3, "
-        "thorough k=4), random up to 8 segments incl. NUL/non-ASCII; x 7 directory spellings; a case is "
+        "thorough k=4), random up to 8 segments incl. NUL/non-ASCII; x %d directory spellings; lookup histories: 8-28 operations over 24 fixed + random attack URIs and a pool of 10 files (4 outside the roots), 6 directory configurations, filesystem_checks on/off; a case is "
         "non-trivial when normalisation changes the URI ('..', '.', empty segment, backslash or repeated slash "
-        "present); distinct = distinct (directory, uri) pairs")
+        "present); distinct = distinct (directory, uri) pairs") % len(DIRS_FOR_RULE)
 ASSUMPTIONS = [
     "symlinks inside the roots are out of scope (the property speaks of configured directories)",
     "POSIX path semantics (os.path is posixpath)",
@@ -38,7 +46,7 @@ SEGS = ["a", "sub", "..", ".", "", "..a", "a..", "..."]
 SEPS = ["/", "//", "\\"]
 LEAD = ["", "/", "//", "///", "\\", "/\\"]
 TRAIL = ["", "/", "\\"]
-DIRS = ["/srv/t", "/", "rel/t", ".", "../up", "//x", "/srv/t/", "/srv/./t/../t", "///y//z/"]
+DIRS = DIRS_FOR_RULE
 
 
 def enum_uris(k):
@@ -551,10 +559,8 @@ def oracle(ctx):
         uris = [attack_uri(ctx.rng, base) for _ in range(n)]
         uris += [detour_uri(ctx.rng) for _ in range(n // 2)]
         # plus a slice of the exhaustive enumeration with real names substituted
-        ren = {"a": "index.html", "sub": "sub", "..a": "..a", "a..": "rootx", "...": "secret.txt"}
+        # (a -> index.html, a.. -> rootx, ..a kept: names that exist in the tree)
         for u in itertools.islice(enum_uris(3), 0, None, 37 if ctx.quick else 3):
-            for k_, v_ in ren.items():
-                pass
             uris.append(u.replace("a..", "rootx").replace("..a", "\0").replace("a", "index.html").replace("\0", "..a"))
         st = ctx.stream("oracle.tree", "oracle")
         allowed_read = [r + os.sep for r in roots] + [mods + os.sep]
